@@ -21,6 +21,10 @@ func init() {
 		ruleAddPreprocess(r, "C01.ADD", k)
 		rulePipeline(r, "C01.PIPE", k.Execute, k.Single, "vector")
 		ruleNodeLookup(r, "C01.NODE", k)
+		ruleVecAtomicAndRevive(r, k) // remove + add history of the statement (C06 rules, flat instance)
+		ruleCtorDistance(r, "C01.CTOR", k)
+		ruleDistance(r, "C01.DIST") // "each reported score is the metric distance": distance.go is an anchor of this property
+		ruleLimitAutocut(r, "C01")
 		r.FloorCheck("C01.ADM", 1)
 		r.FloorCheck("C01.ORD.k", 1)
 		r.FloorCheck("C01.ORD.less", 1)
@@ -51,7 +55,12 @@ func init() {
 			ruleRemoveMarks(r, "C02.REMOVE", k)
 			rulePipeline(r, "C02.PIPE", k.Execute, k.Single, "vector")
 			ruleNodeLookup(r, "C02.NODE", k)
+			ruleVecAtomicAndRevive(r, k)
+			ruleCtorDistance(r, "C02.CTOR", k)
 		}
+		ruleDistance(r, "C02.DIST")
+		ruleAggregations(r, "C02") // multi-query combination rule: aggregation.go is an anchor of this property
+		ruleLimitAutocut(r, "C02")
 		ruleHNSWResultGate(r, "C02.ADM.hnsw-layer")
 		rulePools(r, "C02.POOL")
 		r.FloorCheck("C02.ADM", 5)
